@@ -52,7 +52,16 @@ PATTERNS = {
 def adjointness(ctx, dim, n_components, pattern, grid, dx=0.125, via="generators"):
     m = _comm(dim)
     grid = tuple(grid)
-    idx_list = PATTERNS[dim][pattern]
+    if pattern.startswith("many:"):
+        # many markers (size-gated code paths) spread over two overlapping windows
+        nm = int(pattern.split(":")[1])
+        idx_list = [tuple(2 + (m % 2) for _ in grid) for m in range(nm)]
+    elif pattern == "corners":
+        # (x, y, z) indices of the two extreme admissible windows of THIS grid (window = index-1 .. index+2 inside the grid)
+        ext = tuple(reversed(grid))
+        idx_list = [tuple(1 for _ in ext), tuple(n_ - 3 for n_ in ext)]
+    else:
+        idx_list = PATTERNS[dim][pattern]
     n = len(idx_list)
     # nearest index array is (dim, n) with component 0 = x index
     nearest = np.array(idx_list, dtype=int).T.copy()
@@ -172,6 +181,23 @@ def main():
             for pattern in PATTERNS[dim]:
                 for nc in (1, dim):
                     chk.add(adjointness, real_t=rt, dim=dim, n_components=nc, pattern=pattern, grid=grid)
+            # non-cubic grids with every axis in turn the shortest; markers in the two extreme admissible corners
+            for g2 in ([(7, 8), (8, 7)] if dim == 2 else [(6, 7, 8), (8, 7, 6), (7, 6, 8)]):
+                for nc in (1, dim):
+                    chk.add(adjointness, real_t=rt, dim=dim, n_components=nc, pattern="corners", grid=g2)
+            # size-gated code paths: every distinct code variant of the two transfer kernels over marker counts 1..1100 (+ 2^k)
+            from checks.common import size_variants
+
+            if rt == "float64":
+                m_ = _comm(dim)
+                sizes = list(range(1, 1101)) + [2 ** k + d for k in range(11, 14) for d in (-1, 0, 1)]
+                for nc in (1, dim):
+                    vs = set(size_variants(lambda n_: getattr(m_, f"generate_eulerian_to_lagrangian_grid_interpolation_kernel_{dim}d")(dx=0.125, num_lag_nodes=n_, interp_kernel_width=2, n_components=nc), sizes))
+                    vs |= set(size_variants(lambda n_: getattr(m_, f"generate_lagrangian_to_eulerian_grid_interpolation_kernel_{dim}d")(num_lag_nodes=n_, interp_kernel_width=2, n_components=nc), sizes))
+                    chk.extra.setdefault("marker_counts_selecting_distinct_kernel_code", {})[f"{dim}d,{nc} comp"] = sorted(vs)
+                    for nv in sorted(vs):
+                        if nv > 3:
+                            chk.add(adjointness, real_t=rt, dim=dim, n_components=nc, pattern=f"many:{nv}", grid=grid)
             # kernels generated / communicators constructed earlier in the same process (other spacing, component count, marker count)
             for nc in (1, dim):
                 for via in ("generators", "class"):
@@ -182,7 +208,7 @@ def main():
                 for case in cases:
                     chk.add(force_and_torque, real_t=rt, dim=dim, kernel=kernel, n_components=dim, case=case)
                 chk.add(force_and_torque, real_t=rt, dim=dim, kernel=kernel, n_components=1, case=["interior"] * dim)
-    chk.bounds = ["later-object instances: kernels for another dx / component count / marker count are generated (directly and through the communicator class) and called first in the same process", "adjointness: weights, Eulerian field, Lagrangian field and prior Eulerian content all symbolic; <= 3 markers in the enumerated index patterns; grids (7,8)/(6,7,8)",
+    chk.bounds = ["marker counts: both transfer generators are called for every count in 1..1100 and 2^k-1..2^k+1 (k=11..13); every distinct code variant of the returned kernels is decided", "later-object instances: kernels for another dx / component count / marker count are generated (directly and through the communicator class) and called first in the same process", "adjointness: weights, Eulerian field, Lagrangian field and prior Eulerian content all symbolic; <= 3 markers in the enumerated index patterns; grids (7,8)/(6,7,8); corner markers on (7,8),(8,7) / (6,7,8),(8,7,6),(7,6,8)",
                   "force/torque: 2 markers with symbolic offsets in (0,1) (thorough: also on cell centres), reference point symbolic"]
     chk.outside = ["more markers (the kernels loop over markers; contributions add)", "rounding", "markers within two cells of the boundary"]
     chk.assumptions = ["exact real arithmetic", "sqrt/cos axioms as in C06"]
